@@ -461,4 +461,55 @@ def rule_d(ctx):
     return r
 
 
-RULES = [rule_a, rule_b, rule_c, rule_d]
+
+def rule_e(ctx):
+    r = RuleResult("C15-e", "rgb()/rgba() and scale/adjust/change-color store integer-rounded channels: the red/green/blue handed to the clamping constructors there are "
+                   "fuzzy_round results (colour equality compares stored channels, so an unrounded 127.5 would print as 128 but compare unequal to #808080)")
+    prog = ctx.prog()
+    n = 0
+
+    def rounded(b, op, depth=0):
+        if depth > 5 or op.place is None:
+            return False
+        ap = an.trace_operand(b, op, through_calls=False)
+        if ap.root[0] == "call":
+            nm = ap.root[1]
+            if nm.endswith("number::fuzzy_round") or nm.endswith("update_components::update_rgb") or nm.endswith("f64>::round") or nm.endswith("Number::round"):
+                return True
+            return False
+        if ap.root[0] == "local":
+            defs = b.defs_of(ap.root[1])
+            ok = bool(defs)
+            for bb, i, d in defs:
+                if isinstance(d, dict) and d["k"] == "agg" and d.get("adt", "").endswith("number::Number") and d.get("ops"):
+                    ok = ok and rounded(b, Operand(d["ops"][0]), depth + 1)
+                elif isinstance(d, dict) and d["k"] == "use":
+                    ok = ok and rounded(b, Operand(d["op"]), depth + 1)
+                else:
+                    ok = False
+            return ok
+        return False
+
+    for fn in ("builtin::functions::color::rgb::inner_rgb_3_arg", "builtin::functions::color::other::update_components"):
+        b = prog.one(fn)
+        for c in b.calls():
+            nm = c.name() or ""
+            if nm.endswith("color::Color::from_rgba_fn") or nm.endswith("color::Color::from_rgba"):
+                for idx, ch in enumerate(("red", "green", "blue")):
+                    n += 1
+                    key = "%s|%s-is-rounded" % (fn.rsplit("::", 1)[-1], ch)
+                    if rounded(b, c.args[idx]):
+                        r.ok(key)
+                    else:
+                        r.violate(key, "%s passes an unrounded %s channel (%r) to %s: the colour prints like its rounded spelling but compares unequal to it (==, index(), map keys)"
+                                  % (fn, ch, an.trace_operand(b, c.args[idx], through_calls=False), nm.rsplit("::", 1)[-1]), c.loc())
+    upd = [x for k, x in prog.bodies.items() if k.endswith("update_components::update_rgb")]
+    if len(upd) == 1 and any((c.name() or "").endswith("number::fuzzy_round") for c in upd[0].calls()):
+        r.ok("update_rgb|rounds")
+    else:
+        r.violate("update_rgb|rounds", "update_components::update_rgb no longer rounds with fuzzy_round")
+    r.floor("channel arguments examined", n, 6)
+    return r
+
+
+RULES = [rule_a, rule_b, rule_c, rule_d, rule_e]
